@@ -201,6 +201,15 @@ pub fn gen_history(rng: &mut Rng, max_steps: usize, go: &GenOpts, with_crash: bo
                         d.push(b);
                     }
                 }
+                // the caller may name the versions in any order, and may name one that does not exist:
+                // the delete then fails midway — what is gone by then must not depend on anything but the order given
+                if d.len() >= 2 && rng.chance(1, 3) {
+                    rng.shuffle(&mut d);
+                }
+                if !d.is_empty() && rng.chance(1, 4) {
+                    let at = rng.below(d.len() + 1);
+                    d.insert(at, bands + 5 + rng.below(3) as u32);
+                }
                 steps.push(Step::Delete(d, rng.chance(1, 5)));
             }
             9 if with_delete => steps.push(Step::Gc),
